@@ -20,7 +20,7 @@ func run(c *hl.Ctx) error {
 	}
 	g := &lay.Gen{R: c.Rand()}
 	var jobs []lay.Job
-	nProg := lay.DevN(c.Pick(300, 25000))
+	nProg := lay.DevN(c.Pick(300, 6000))
 	weights := []string{"core", "styled", "styled", "grid", "grid", "near", "near", "nested", "nested", "seq", "names", "boards"}
 	for i := 0; i < nProg; i++ {
 		p := weights[i%len(weights)]
@@ -29,8 +29,12 @@ func run(c *hl.Ctx) error {
 			jobs = append(jobs, lay.Job{Src: src, Engine: e, Tag: p})
 		}
 	}
-	res := lay.RunAll(jobs, runtime.NumCPU())
+	res := lay.RunAll(jobs, runtime.NumCPU(), lay.QuickBudget(c.Quick()), 32)
 	for i, rr := range res {
+		if rr == nil {
+			c.Count("budget:not-run")
+			continue
+		}
 		c.Emit(lay.GeoCase(rr))
 		c.Count("geo:" + jobs[i].Tag + ":" + rr.Engine)
 		if rr.Compile != "ok" {
